@@ -45,6 +45,13 @@ func init() {
 			mk("load‖load", CacheCfg{}, nil, [][]string{{"load 1 val"}, {"load 1 err"}})
 			mk("ComputeIfAbsent‖Invalidate", CacheCfg{}, []string{"set 1"}, [][]string{{"cia 1"}, {"inv 1"}})
 			mk("Compute‖Compute", CacheCfg{}, []string{"set 1"}, [][]string{{"cw 1", "get 1"}, {"ci 1", "get 1"}})
+			// two-phase operations whose second phase finds a different state than the first: still one lookup each
+			mk("ComputeIfAbsent‖Set(absent)", CacheCfg{}, nil, [][]string{{"cia 1"}, {"set 1"}})
+			mk("ComputeIfAbsent‖ComputeIfAbsent", CacheCfg{}, nil, [][]string{{"cia 1"}, {"cia 1"}})
+			mk("ComputeIfPresent‖Invalidate", CacheCfg{}, []string{"set 1"}, [][]string{{"cipw 1"}, {"inv 1"}})
+			mk("ComputeIfPresent‖Set", CacheCfg{}, []string{"set 1"}, [][]string{{"cipc 1"}, {"set 1"}})
+			mk("Get(load)‖Set", CacheCfg{}, nil, [][]string{{"load 1 val"}, {"set 1"}})
+			mk("BulkGet‖Set", CacheCfg{}, []string{"set 2"}, [][]string{{"bulk 1,2,1 full"}, {"set 1"}})
 			mk("Set‖Set(evicting)", CacheCfg{MaxSize: 1}, []string{"set 1"}, [][]string{{"set 2", "get 1"}, {"set 3", "get 2"}})
 			// the eviction policy meets a node that was already replaced or removed: it must not be counted as an eviction
 			mk("update‖insert-evict", CacheCfg{MaxSize: 2}, []string{"set 1", "set 2"}, [][]string{{"set 1"}, {"set 3"}})
